@@ -7,7 +7,7 @@ CONSTANTS
   Sized = {0}
   MaxRegs = 1
   CapIncC = 1
-  MaxSteps = 3
+  MaxSteps = 4
 VIEW View
 CONSTRAINT Bound
 INVARIANTS Struct CacheOK Refines IssuedOnce PanicAgrees CacheSelects
